@@ -102,6 +102,34 @@ M = [
      '            touched.update(tbp.pop(old))', '            touched |= tbp.pop(old)', 'C20='),
     ('refactor-sorted-adds', 'electrumx/server/db.py',
      '            for key, value in flush_data.adds.items():', '            for key, value in sorted(flush_data.adds.items()):', 'C01='),
+    ('refactor-fs-write-order', 'electrumx/server/db.py',
+     "        offset = height_start * 80\n        self.headers_file.write(offset, b''.join(flush_data.headers))\n        flush_data.headers.clear()\n",
+     "        offset = prior_tx_count * 32\n        self.hashes_file.write(offset, hashes)\n        offset = height_start * 80\n        self.headers_file.write(offset, b''.join(flush_data.headers))\n        flush_data.headers.clear()\n", 'C04='),
+    ('refactor-fs-write-order-c01', 'electrumx/server/db.py',
+     "        offset = height_start * 80\n        self.headers_file.write(offset, b''.join(flush_data.headers))\n        flush_data.headers.clear()\n",
+     "        offset = prior_tx_count * 32\n        self.hashes_file.write(offset, hashes)\n        offset = height_start * 80\n        self.headers_file.write(offset, b''.join(flush_data.headers))\n        flush_data.headers.clear()\n", 'C01='),
+    ('refactor-polling-delay-3', 'electrumx/server/block_processor.py',
+     '    polling_delay = 5\n', '    polling_delay = 3\n', 'C07='),
+    ('refactor-polling-delay-3-c06', 'electrumx/server/block_processor.py',
+     '    polling_delay = 5\n', '    polling_delay = 3\n', 'C06='),
+    ('refactor-polling-delay-3-c09', 'electrumx/server/block_processor.py',
+     '    polling_delay = 5\n', '    polling_delay = 3\n', 'C09='),
+    ('refactor-mempool-refresh-7', 'electrumx/server/mempool.py',
+     'refresh_secs=5.0,', 'refresh_secs=7.0,', 'C08='),
+    ('refactor-mempool-refresh-7-c10', 'electrumx/server/mempool.py',
+     'refresh_secs=5.0,', 'refresh_secs=7.0,', 'C10='),
+    ('refactor-peers-sorted', 'electrumx/server/peers.py',
+     '        for peer in recent:\n            if peer.is_tor:\n                onion_peers.append(peer)',
+     '        for peer in sorted(recent, key=lambda p: p.host):\n            if peer.is_tor:\n                onion_peers.append(peer)', 'C19='),
+    ('refactor-history-unsorted-flush', 'electrumx/server/history.py',
+     '            for hashX in sorted(unflushed):\n                key = hashX + flush_id',
+     '            for hashX in unflushed:\n                key = hashX + flush_id', 'C02='),
+    ('refactor-history-unsorted-flush-c04', 'electrumx/server/history.py',
+     '            for hashX in sorted(unflushed):\n                key = hashX + flush_id',
+     '            for hashX in unflushed:\n                key = hashX + flush_id', 'C04='),
+    ('refactor-daemon-retry-log', 'electrumx/server/daemon.py',
+     "            if retry == self.max_retry and self.failover():\n                retry = 0",
+     "            if retry >= self.max_retry and self.failover():\n                retry = 0", 'C18='),
     ('refactor-history-set-order', 'electrumx/server/history.py',
      '            hashXs = set(hashXs)\n            for hashX in hashXs:', '            hashXs = sorted(set(hashXs), key=lambda h: h or b"")\n            for hashX in hashXs:', 'C02='),
 ]
